@@ -107,7 +107,7 @@ fn poll_once(state: &mut GenericPollPacketState<H>, rd: &mut Script) -> Poll<Res
     Pin::new(&mut fut).poll(&mut cx)
 }
 
-//@ id=poll.header-step props=C03,C04,C05,C07,C08,C14,C15,C20 kind=complete tier=quick
+//@ id=poll.header-step props=C01,C03,C04,C05,C06,C07,C08,C11,C14,C15,C20 kind=complete tier=quick
 #[kani::proof]
 #[kani::unwind(6)]
 fn k_poll_header_step() {
@@ -181,7 +181,7 @@ fn any_body_state(pre: &[u8; B]) -> (GenericPollPacketState<H>, usize, usize, u8
     (GenericPollPacketState::Body(GenericPollBodyState { header, total, idx, buf }), len, idx, hd, total)
 }
 
-//@ id=poll.body-step props=C01,C03,C04,C05,C07,C14,C20 kind=bounded(body-length<=4) tier=quick
+//@ id=poll.body-step props=C01,C03,C04,C05,C06,C07,C08,C11,C12,C14,C20 kind=bounded(body-length<=4) tier=quick
 #[kani::proof]
 #[kani::unwind(6)]
 fn k_poll_body_step() {
